@@ -192,8 +192,15 @@ func raceSignature(r raceReport, caseSharedTxn bool) string {
 	a, b := topDefraFrame(r.Stk[0]), topDefraFrame(r.Stk[1])
 	// (c) the commit callback of a schema change stores parser.schemaManager while a request on
 	// another goroutine reads it through a method of the same parser
-	swap := "internal/request/graphql.(*parser).SetSchema.func1"
-	if (a == swap && firstDefra(r.Stk[1], isParserMethod)) || (b == swap && firstDefra(r.Stk[0], isParserMethod)) {
+	// (also reported as: the construction of the new manager inside SetSchema, which the reader
+	// reaches through the unsynchronised pointer)
+	inSetSchema := func(stk []string) bool {
+		return hasFrame(stk, func(f string) bool {
+			return strings.HasPrefix(f, modPrefix+"internal/request/graphql.(*parser).SetSchema")
+		})
+	}
+	if (inSetSchema(r.Stk[0]) && firstDefra(r.Stk[1], isParserMethod) && !inSetSchema(r.Stk[1])) ||
+		(inSetSchema(r.Stk[1]) && firstDefra(r.Stk[0], isParserMethod) && !inSetSchema(r.Stk[0])) {
 		return sigParserSwap
 	}
 	// (d) two calls carrying the shared transaction register commit/discard callbacks: the
